@@ -191,6 +191,8 @@ def coverage_run(base, chk, routine, n):
 
 def run(chk):
     prog, base = setup(chk)
+    from .common import state_shape
+    state_shape(chk, prog)
     maxn = 3
     chk.bounds = ["every exported operation x every *Point input position (slice elements for n <= %d), all other arguments symbolic/valid; mismatched lengths with symbolic lengths" % maxn]
     chk.outside = ["n > %d for the slice positions" % maxn]
